@@ -66,7 +66,7 @@ class Response:
     def __str__(self):
         try:
             return "{}".format(self.value)
-        except MissingResponse or ResponseError as e:
+        except (MissingResponse, ResponseError) as e:
             return "{}".format(e)
 
 
